@@ -11,7 +11,7 @@ MODULE = "GmqttVerif.Properties.C07"
 THEOREMS = ["GmqttVerif.Retained.retained_refines_map", "GmqttVerif.Retained.matched_exact",
             "GmqttVerif.Retained.iterate_exact", "GmqttVerif.Retained.iterate_stop_prefix",
             "GmqttVerif.Retained.matched_exact_hashLast"]
-COMPS = ["retained"]
+COMPS = ["retained", "broker"]
 
 LEVELS = ["a", "b", "", "$s"]
 
@@ -108,8 +108,10 @@ def gen_with(rng, alphabet, invalid):
     ops += ["iter", "match :#", "match :+/#", "match :$s/#"]
     return ops
 
+EXOTIC = ["a", "ab", "", "$", "$s", "b", "$$"]
+
 def gen(rng):
-    return gen_with(rng, LEVELS, False)
+    return gen_with(rng, EXOTIC if rng.random() < 0.1 else LEVELS, False)
 
 def gen_invalid(rng):
     """inputs outside MQTT validity that the API accepts: topic names containing wildcard levels,
@@ -207,16 +209,24 @@ def nontrivial(ops, out):
     return False
 
 def streams(tier):
-    n = 10000 if tier == "quick" else 500000
-    m = 2000 if tier == "quick" else 100000
+    n = 40000 if tier == "quick" else 1000000
+    m = 8000 if tier == "quick" else 200000
+    from . import c07wire
     return [(core.Stream("retained-store", "retained", gen, predicate, nontrivial, keep_prefix=1), n),
-            (core.Stream("retained-invalid", "retained", gen_invalid, predicate, nontrivial, keep_prefix=1), m)]
+            (core.Stream("retained-invalid", "retained", gen_invalid, predicate, nontrivial, keep_prefix=1), m),
+            c07wire.stream(tier)]
+
+def _recognisers():
+    from . import c07wire
+    return {"retained_replay_retain_flag": c07wire.rec_f13}
+
+RECOGNISERS = _recognisers()
 
 def run(r):
     return core.standard_run(r, __import__(__name__, fromlist=["x"]))
 
 RULE = ("random histories of add/rm/clear/get/match/iter/iterstop on retained/trie.NewStore() through its public API; topics and filters "
-        "over the level alphabet {a, b, '', $s} (filters also + and a trailing #), drawn from a per-case pool in which topics are prefixes, "
+        "over the level alphabet {a, b, '', $s} (10% of cases: {a, ab, '', $, $s, b, $$}; filters also + and a trailing #), drawn from a per-case pool in which topics are prefixes, "
         "children and siblings of each other and of `$s/...` twins; removes of inner nodes (with and without message), re-adds, clears; "
         "a final sweep reads every pool topic, iterates, and matches #, +/#, $s/#. Second stream: the same with wildcard levels inside topic "
         "names and `#` before the last filter level / glued wildcards (inputs the API accepts but MQTT forbids). Each case is executed by the "
